@@ -166,6 +166,26 @@ func (tt *TrueTypeFont) parseEncoding(fontDict core.Dict, resolver func(core.Ind
 		} else {
 			tt.Encoding = "WinAnsiEncoding"
 		}
+
+		// Apply differences ([code name1 name2 ... code name1 ...])
+		diffsObj := dict.Get("Differences")
+		if ref, ok := diffsObj.(core.IndirectRef); ok {
+			if obj, err := resolver(ref); err == nil {
+				diffsObj = obj
+			}
+		}
+		if diffs, ok := diffsObj.(core.Array); ok {
+			code := 0
+			for _, item := range diffs {
+				switch v := item.(type) {
+				case core.Int:
+					code = int(v)
+				case core.Name:
+					tt.Font.setDifference(code, string(v))
+					code++
+				}
+			}
+		}
 		return nil
 	}
 
